@@ -15,6 +15,7 @@ import (
 	"net/http"
 	"net/http/httptest"
 	"os"
+	"path/filepath"
 	"sort"
 	"strings"
 	"time"
@@ -38,9 +39,6 @@ import (
 )
 
 // ---- the universe shared with spec/config/ConfigStoreTrace.cfg ----
-var routerNames = []string{"r1", "r2"}
-var clusterNames = []string{"c1", "c2"}
-var listenerNames = []string{"l1"}
 var hostAddr = map[string]string{"h1": "10.12.0.1:80", "h2": "10.12.0.2:80", "h3": "10.12.0.3:80"}
 var addrHost = map[string]string{}
 var lbOf = map[string]v2.LbType{"rr": v2.LB_ROUNDROBIN, "rand": v2.LB_RANDOM}
@@ -53,6 +51,7 @@ type route struct {
 	Cl  string `json:"cl"`
 }
 type vhost struct {
+	Name   string  `json:"name"`
 	Dom    string  `json:"dom"`
 	Routes []route `json:"routes"`
 }
@@ -124,7 +123,12 @@ type op struct {
 	V    string     `json:"v,omitempty"`
 }
 type histCase struct {
-	Ops []op `json:"ops"`
+	Ops []op     `json:"ops"`
+	Cm  string   `json:"cm"` // storage mode of the dumped clusters: inline | dir (clusters_configs directory)
+	Rm  string   `json:"rm"` // storage mode of the dumped routers: inline | dir (router_configs directory per router)
+	Cl  []string `json:"cl"` // the history's universe of cluster / router / listener names
+	Rt  []string `json:"rt"`
+	Ls  []string `json:"ls"`
 }
 
 // ---- configuration objects, built the way the admin API builds them: from JSON ----
@@ -140,7 +144,11 @@ func routerCfgJSON(name string, vhs []vhost) []byte {
 		for _, r := range v.Routes {
 			rs = append(rs, routeJSON(r))
 		}
-		vl = append(vl, map[string]interface{}{"name": fmt.Sprintf("vh%d", i), "domains": []string{v.Dom}, "routers": rs})
+		name := v.Name
+		if name == "" {
+			name = fmt.Sprintf("vh%d", i)
+		}
+		vl = append(vl, map[string]interface{}{"name": name, "domains": []string{v.Dom}, "routers": rs})
 	}
 	b, _ := json.Marshal(map[string]interface{}{"router_config_name": name, "virtual_hosts": vl})
 	return b
@@ -305,6 +313,22 @@ type replay struct {
 	cvt     conv.Converter
 	viaAPI  bool
 	dumpErr error
+	c       histCase // storage modes and name universe of the current history
+	base    string   // directory of the current history's dumped files
+}
+
+func (p *replay) clusterDir() string {
+	if p.c.Cm == "dir" {
+		return filepath.Join(p.base, "clusters")
+	}
+	return ""
+}
+
+func (p *replay) routerDir(r string) string {
+	if p.c.Rm == "dir" {
+		return filepath.Join(p.base, "routers", r)
+	}
+	return ""
 }
 
 func (p *replay) rname(r string) string { return fmt.Sprintf("%s#%d", r, p.n) }
@@ -313,13 +337,17 @@ type cmFilter struct{}
 
 func (cmFilter) OnCreated(types.ClusterConfigFactoryCb, types.ClusterHostFactoryCb) {}
 
-func freshManagers() {
+// freshManagers: empty managers and an empty effective configuration; clusterDir != "" selects the dynamic
+// cluster mode (cluster_manager.clusters_configs) the way pkg/mosn does at start-up: through SetMosnConfig.
+func freshManagers(clusterDir string) {
 	cluster.GetClusterMngAdapterInstance().Destroy()
 	configmanager.Reset()
 	cluster.NewClusterManagerSingleton(nil, nil, nil)
 	server.ResetAdapter()
 	server.NewServer(server.NewConfig(&v2.ServerConfig{}), cmFilter{}, cluster.GetClusterMngAdapterInstance().ClusterManager)
 	configmanager.Reset()
+	configmanager.SetMosnConfig(&v2.MOSNConfig{ClusterManager: v2.ClusterManagerConfig{
+		ClusterManagerConfigJson: v2.ClusterManagerConfigJson{ClusterConfigPath: clusterDir}}})
 }
 
 func post(h func(http.ResponseWriter, *http.Request), typ string, cfg []byte) bool {
@@ -340,6 +368,12 @@ func (p *replay) apply(o op) bool {
 		}
 		cfg := &v2.RouterConfiguration{}
 		vh.Must(json.Unmarshal(b, cfg), "router config")
+		if dir := p.routerDir(o.R); dir != "" {
+			// dynamic router mode (router_configs: <dir>, one file per virtual host): such a configuration is
+			// loaded from the directory, it never carries inline virtual_hosts as well
+			cfg.RouterConfigPath = dir
+			cfg.StaticVirtualHosts = nil
+		}
 		return p.rm.AddOrUpdateRouters(cfg) != nil
 	case "nilrouters":
 		return p.rm.AddOrUpdateRouters(nil) != nil
@@ -446,7 +480,7 @@ func (p *replay) observe() vh.Ev {
 	cfg := dumped()
 	// routers
 	lr, fr := map[string][]string{}, map[string][]string{}
-	for _, r := range routerNames {
+	for _, r := range p.c.Rt {
 		if w := p.rm.GetRouterWrapperByName(p.rname(r)); w == nil {
 			lr[r] = []string{"absent"}
 		} else {
@@ -467,7 +501,7 @@ func (p *replay) observe() vh.Ev {
 	lc, fc := map[string]clusterView{}, map[string]clusterView{}
 	ad := cluster.GetClusterMngAdapterInstance()
 	pcs, hostMap := configmanager.ParseClusterConfig(cfg.ClusterManager.Clusters)
-	for _, c := range clusterNames {
+	for _, c := range p.c.Cl {
 		lc[c] = viewSnapshot(ad.GetClusterSnapshot(context.Background(), c))
 		fc[c] = viewSnapshot(nil)
 		for _, cc := range pcs {
@@ -482,7 +516,7 @@ func (p *replay) observe() vh.Ev {
 	ev["lc"], ev["fc"] = lc, fc
 	// listeners
 	ll, fl := map[string]string{}, map[string]string{}
-	for _, n := range listenerNames {
+	for _, n := range p.c.Ls {
 		ll[n], fl[n] = liveListener(n), "absent"
 		if len(cfg.Servers) > 0 {
 			for i := range cfg.Servers[0].Listeners {
@@ -505,7 +539,7 @@ func (p *replay) restart() vh.Ev {
 	pcs, hostMap := configmanager.ParseClusterConfig(cfg.ClusterManager.Clusters)
 	cm := cluster.NewClusterManagerSingleton(pcs, hostMap, &cfg.ClusterManager)
 	fr, fc, fl := map[string][]string{}, map[string]clusterView{}, map[string]string{}
-	for _, c := range clusterNames {
+	for _, c := range p.c.Cl {
 		fc[c] = viewSnapshot(cm.GetClusterSnapshot(context.Background(), c))
 	}
 	var sc v2.ServerConfig
@@ -518,11 +552,11 @@ func (p *replay) restart() vh.Ev {
 		_, err := srv.AddListener(lc)
 		vh.Must(err, "restart: AddListener")
 	}
-	for _, n := range listenerNames {
+	for _, n := range p.c.Ls {
 		fl[n] = liveListener(n)
 	}
 	// the router manager cannot forget a name: the restarted instance registers the dumped routers under a new one
-	for _, r := range routerNames {
+	for _, r := range p.c.Rt {
 		fr[r] = []string{"absent"}
 		for _, rc := range sc.Routers {
 			if rc != nil && rc.RouterConfigName == p.rname(r) {
@@ -590,14 +624,26 @@ func runHist(casesPath, tracePath string, viaAPI bool) {
 	tr := vh.NewTrace(tracePath)
 	defer tr.Close()
 	p := &replay{rm: router.NewRouterManager(), cvt: conv.NewConverter(), viaAPI: viaAPI}
-	err := vh.ReadCases(casesPath, func(raw json.RawMessage) error {
+	work, err := os.MkdirTemp(".", "c12-dump-")
+	vh.Must(err, "work dir")
+	work, _ = filepath.Abs(work)
+	defer os.RemoveAll(work)
+	err = vh.ReadCases(casesPath, func(raw json.RawMessage) error {
 		var c histCase
 		if err := json.Unmarshal(raw, &c); err != nil {
 			return err
 		}
 		p.n++
-		freshManagers()
-		tr.Emit(vh.Ev{"ev": "new", "n": p.n})
+		if c.Cm == "" {
+			c.Cm = "inline"
+		}
+		if c.Rm == "" {
+			c.Rm = "inline"
+		}
+		p.c = c
+		p.base = filepath.Join(work, fmt.Sprintf("h%d", p.n))
+		freshManagers(p.clusterDir())
+		tr.Emit(vh.Ev{"ev": "new", "n": p.n, "cm": c.Cm, "rm": c.Rm})
 		for _, o := range c.Ops {
 			failed, panicked := p.applySafe(o)
 			ev := opEvent(o, failed)
@@ -608,6 +654,7 @@ func runHist(casesPath, tracePath string, viaAPI bool) {
 			tr.Emit(p.observe())
 		}
 		tr.Emit(p.restart())
+		os.RemoveAll(p.base)
 		return nil
 	})
 	vh.Must(err, "hist cases")
